@@ -9,7 +9,8 @@ RULE = ('cubics with loops, cusps, collinear and degenerate control polygons, la
         'the cubic end points (bit-exact) and have equal point counts within a batch. Implementation also compared with the Float instantiation of '
         'the Lean model (piece count exact, points to 1e-12 of scale). non-trivial = distinct (cubic, accuracy)')
 KERNEL_DEPS = [r'CubicBez\.(eval|subsegment|subdivide|subdivide_3|parameters|from_parameters|approx_quad_control|deriv)', r'Vec2\.(div_exact|hypot2|lerp)',
-               r'Point\.(lerp|midpoint)']
+               r'Point\.(lerp|midpoint)',
+               r'K2:Line\.crossing_point']
 UNPROVED = ['float rounding of the piece-count formula ceil(powf(x, 1/6)) at exact integer boundaries (compared)']
 ASSUMPTIONS = ['error bound theorem is over the reals; the per-instance certificates are exact rational computations']
 MAKERS = {}
